@@ -86,6 +86,8 @@ type Ctx struct {
 	gwCache map[*ssa.Global]bool
 	bce     map[string]bool
 	bceErr  error
+	subst   map[*ssa.Parameter]ssa.Value
+	helperSites map[*ssa.Function][]*ssa.Call
 	evIndex map[ssa.Instruction][2]int // obligations decided by the abstract interpreter, per instruction
 
 	A *Anchors
